@@ -4,6 +4,10 @@ C07 — bookkeeping behind a saved package (src/numbers_parser/containers.py, mo
 * `ObjectStore.__init__` rounding of `_max_id`, `new_message_id`, `create_object_from_dict`
   (which archive file a new object goes to, when a file is created), `add_component_metadata` /
   `add_component_reference` (the `PackageMetadata.components` inventory).
+* the object graph: every message abstracted to the identifiers it refers to (`GStore`), `create_object_from_dict` with the
+  references of the dict, `add_component_reference`, reference writes / removals, `update_object_file_store` =
+  `iwafile.copy_object_to_iwa_file` over all objects (header `object_references` recomputed), `store_image`; operation
+  histories `GOp` / `runG` and the side condition `TargetsExist`.
 * the tile loop of `recalculate_table_data` (after fixes/C07-no-empty-trailing-tile.patch) and the
   row-info builder `recalculate_row_info`.
 -/
@@ -41,11 +45,18 @@ def stripDashDigits : List Char → List Char
   | c :: r => c :: stripDashDigits r
   | [] => []
 
+/-- `ComponentExternalReference` -/
+structure ExtRef where
+  component : Nat
+  object : Nat := 0
+  weak : Bool := false
+  deriving DecidableEq, Repr
+
 structure Component where
   identifier : Nat
   locator : List Char
   preferred : List Char
-  externalRefs : List Nat := []
+  externalRefs : List ExtRef := []
   deriving DecidableEq, Repr
 
 structure Store where
@@ -97,7 +108,7 @@ def createObject (st : Store) (iwaFile : List Char) (append : Bool) : Store × P
 def addExternalRef : List Component → List Char → Nat → Option (List Component)
   | [], _, _ => none
   | c :: r, parent, oid =>
-    if c.preferred = parent then some ({ c with externalRefs := c.externalRefs ++ [oid] } :: r)
+    if c.preferred = parent then some ({ c with externalRefs := c.externalRefs ++ [{ component := oid }] } :: r)
     else (addExternalRef r parent oid).map (c :: ·)
 
 def newComponent (objectId : Nat) (locator : List Char) : Component :=
@@ -137,6 +148,172 @@ def step (st : Store) : Op → Store
   | .listed l p => (createListed st l p).1
 
 def run (st : Store) (ops : List Op) : Store := ops.foldl step st
+
+/-! ### the object graph
+
+Every protobuf message is abstracted to the list of identifiers of the `TSP.Reference`s inside it
+(`iwafile.find_references` order, duplicates kept): `refs` is that list for the live message `_objects[id]`.
+The file store holds, per archive, a message and the header's `message_infos[0].object_references` (`hdr`).
+For everything read from the source the archive's message *is* the live message
+(`IWork._store_blob`: `store_object(filename, identifier, archive.objects[0])`) — those identifiers are `shared`;
+for an object made by `create_object_from_dict` the archive holds a separate message built from the same dict
+(`archMsg`), brought up to date only by `update_object_file_store` (`CopyFrom`).  An absent entry of
+`refs` / `archMsg` / `hdr` stands for a message / header without references. -/
+
+structure GStore extends Store where
+  refs : List (Nat × List Nat) := []
+  shared : List Nat := []
+  archMsg : List (Nat × List Nat) := []
+  hdr : List (Nat × List Nat) := []
+  deriving Repr
+
+def getL (d : List (Nat × List Nat)) (i : Nat) : List Nat := (dictGet? d i).getD []
+
+/-- `find_references(_objects[i])` -/
+def GStore.refsOf (g : GStore) (i : Nat) : List Nat := getL g.refs i
+/-- header `object_references` of archive `i` -/
+def GStore.hdrOf (g : GStore) (i : Nat) : List Nat := getL g.hdr i
+/-- references of the message that a save writes for archive `i` -/
+def GStore.writtenOf (g : GStore) (i : Nat) : List Nat := if i ∈ g.shared then getL g.refs i else getL g.archMsg i
+
+/-- `_object_to_filename_map` after `ObjectStore.store_object` has run over the archives of every file in order -/
+def fileOfFromFiles : List (List Char × Option (List Nat)) → List (Nat × List Char) → List (Nat × List Char)
+  | [], acc => acc
+  | (_, none) :: r, acc => fileOfFromFiles r acc
+  | (name, some segs) :: r, acc => fileOfFromFiles r (segs.foldl (fun a i => dictSet a i name) acc)
+
+/-- a freshly opened document: every object is shared with its archive -/
+def openG (ids : List Nat) (lastObjId : Nat) (files : List (List Char × Option (List Nat))) (components : List Component)
+    (fileOf : List (Nat × List Char)) (refs hdr : List (Nat × List Nat)) : PyM GStore := do
+  let st ← openStore ids lastObjId files components
+  pure { toStore := { st with fileOf := fileOf }, refs := refs, shared := ids, archMsg := [], hdr := hdr }
+
+/-- `create_object_from_dict(iwa_file, object_dict, cls, append)` where the dict carries the references `rs`:
+    the live message `cls(**object_dict)` and the archive's message `ParseDict(object_dict)` both hold `rs`;
+    the new header has no `object_references`. -/
+def createG (g : GStore) (iwaFile : List Char) (append : Bool) (rs : List Nat) : GStore × PyM Nat :=
+  match createObject g.toStore iwaFile append with
+  | (st, .error e) => ({ g with toStore := st }, .error e)
+  | (st, .ok id) =>
+    ({ g with toStore := st, refs := dictSet g.refs id rs, archMsg := dictSet g.archMsg id rs, hdr := dictSet g.hdr id [] }, .ok id)
+
+def addExtRefWhere (p : Component → Bool) (e : ExtRef) : List Component → Option (List Component)
+  | [] => none
+  | c :: r => if p c then some ({ c with externalRefs := c.externalRefs ++ [e] } :: r) else (addExtRefWhere p e r).map (c :: ·)
+
+/-- `add_component_reference(object_id, location, component_id, is_weak)` (component identifiers pairwise distinct, as for
+    `addComponentMetadata`): the component is looked up by `location or component_id` — by preferred locator when
+    `location` is a non-empty string, else by identifier (`None` matches nothing) — `IndexError` when there is none. -/
+def addComponentReference (st : Store) (objectId : Nat) (location : Option (List Char)) (componentId : Option Nat)
+    (weak : Bool) : Store × PyM Unit :=
+  let e : ExtRef := match componentId with
+    | some c => { component := c, object := objectId, weak := weak }
+    | none => { component := objectId, weak := weak }
+  let p : Component → Bool := match location, componentId with
+    | some l, cid => if l.isEmpty then (match cid with | some c => fun k => k.identifier == c | none => fun _ => false)
+                     else fun k => k.preferred == l
+    | none, some c => fun k => k.identifier == c
+    | none, none => fun _ => false
+  match addExtRefWhere p e st.components with
+  | none => (st, .error .IndexError)
+  | some cs => ({ st with components := cs }, .ok ())
+
+/-- a reference to `tgt` is written into object `obj` (`set_reference` on an unset field, `x.MergeFrom(Reference(..))`,
+    `repeated.append(Reference(..))`, `.identifier = n`); `self.objects[obj]` raises KeyError for an unknown object -/
+def addRef (g : GStore) (obj tgt : Nat) : GStore × PyM Unit :=
+  if obj ∈ g.ids then ({ g with refs := dictSet g.refs obj (getL g.refs obj ++ [tgt]) }, .ok ())
+  else (g, .error .KeyError)
+
+/-- one reference to `tgt` disappears from object `obj` (ClearField, clear_field_container, overwritten by MergeFrom / CopyFrom) -/
+def clearRef (g : GStore) (obj tgt : Nat) : GStore × PyM Unit :=
+  if obj ∈ g.ids then ({ g with refs := dictSet g.refs obj ((getL g.refs obj).erase tgt) }, .ok ())
+  else (g, .error .KeyError)
+
+/-- `set_reference(field_of_obj, new)` on a field that held `old`: `MergeFrom` overwrites the identifier -/
+def setRef (g : GStore) (obj old new : Nat) : GStore × PyM Unit :=
+  match clearRef g obj old with
+  | (g1, .ok ()) => addRef g1 obj new
+  | r => r
+
+/-- `copy_object_to_iwa_file(self._file_store[self._object_to_filename_map[id]], self._objects[id], id)`:
+    the archive's message becomes a copy of the live one; the header's `object_references` are replaced by the
+    references found in it **only when there is at least one** (otherwise the header keeps what it had). -/
+def copyObject (g : GStore) (id : Nat) : GStore × PyM Unit :=
+  match dictGet? g.fileOf id with
+  | none => (g, .error .KeyError)
+  | some path =>
+    match dictGet? g.files path with
+    | none => (g, .error .KeyError)
+    | some none => (g, .error .AttributeError)
+    | some (some segs) =>
+      if id ∈ segs then
+        let rs := getL g.refs id
+        let am := if id ∈ g.shared then g.archMsg else dictSet g.archMsg id rs
+        if rs.length > 0 then ({ g with archMsg := am, hdr := dictSet g.hdr id rs }, .ok ())
+        else ({ g with archMsg := am }, .ok ())
+      else (g, .ok ())
+
+def copyAll : GStore → List Nat → GStore × PyM Unit
+  | g, [] => (g, .ok ())
+  | g, i :: r =>
+    match copyObject g i with
+    | (g1, .ok ()) => copyAll g1 r
+    | e => e
+
+/-- `update_object_file_store`: `for obj_id in self._objects` -/
+def updateFileStore (g : GStore) : GStore × PyM Unit := copyAll g g.ids
+
+/-- `store_image`: a non-IWA blob enters the file store under a new name (IndexError if the name is taken) -/
+def storeBlob (g : GStore) (name : List Char) : GStore × PyM Unit :=
+  if (dictGet? g.files name).isSome then (g, .error .IndexError)
+  else ({ g with files := dictSet g.files name none }, .ok ())
+
+inductive GOp where
+  | create (iwaFile : List Char) (append : Bool) (rs : List Nat)
+  | addMeta (objectId : Nat) (parent locatorPat : List Char)
+  | extRef (objectId : Nat) (location : Option (List Char)) (componentId : Option Nat) (weak : Bool)
+  | addRef (obj tgt : Nat)
+  | clearRef (obj tgt : Nat)
+  | setRef (obj old new : Nat)
+  | update
+  | blob (name : List Char)
+  deriving Repr
+
+def stepG (g : GStore) : GOp → GStore
+  | .create f a rs => (createG g f a rs).1
+  | .addMeta i p l => { g with toStore := (addComponentMetadata g.toStore i p l).1 }
+  | .extRef i l c w => { g with toStore := (addComponentReference g.toStore i l c w).1 }
+  | .addRef o t => (addRef g o t).1
+  | .clearRef o t => (clearRef g o t).1
+  | .setRef o a b => (setRef g o a b).1
+  | .update => (updateFileStore g).1
+  | .blob n => (storeBlob g n).1
+
+def runG (g : GStore) (ops : List GOp) : GStore := ops.foldl stepG g
+
+/-- the side condition on one operation, in the state it is applied to: every reference it writes targets an
+    object that exists at that moment (or the object being created itself), or an identifier exempted by `ex` -/
+def opTargetsOk (ex : Nat → Bool) (g : GStore) : GOp → Bool
+  | .create _ _ rs => rs.all fun r => decide (r ∈ g.ids) || r == g.maxId + 1 || ex r
+  | .addRef _ t => decide (t ∈ g.ids) || ex t
+  | .setRef _ _ t => decide (t ∈ g.ids) || ex t
+  | _ => true
+
+def targetsExistEx (ex : Nat → Bool) : GStore → List GOp → Bool
+  | _, [] => true
+  | g, op :: r => opTargetsOk ex g op && targetsExistEx ex (stepG g op) r
+
+/-- what every creator site must guarantee -/
+def TargetsExist (g : GStore) (ops : List GOp) : Prop := targetsExistEx (fun _ => false) g ops = true
+
+instance (g : GStore) (ops : List GOp) : Decidable (TargetsExist g ops) := by unfold TargetsExist; infer_instance
+
+/-- every stored object is filed: `_object_to_filename_map[id]` names an IWA file of the file store whose archives include `id`
+    (then `update_object_file_store` reaches every object and raises nothing) -/
+def wellFiled (g : GStore) : Bool :=
+  g.ids.all fun i => match dictGet? g.fileOf i with
+    | some path => (match dictGet? g.files path with | some (some segs) => decide (i ∈ segs) | _ => false)
+    | none => false
 
 /-! ### tiles -/
 
